@@ -1410,7 +1410,7 @@ class _Ops:
                     if st0 == "ok":
                         f0 = tw0.v if velocity else tw0.u
                         probe = ("nodes", pts, sample_field(f0.detach(), pts.expand(f0.shape[0], -1, -1), True))
-            elif fam == "dense" and x.affine_params and mode in ("sub", "subdivide") and old.align_corners() == new.align_corners():
+            elif fam == "dense" and x.affine_params and mode in ("sub", "subdivide", "acflip", "new"):
                 # all new parameter nodes must lie inside the hull of the old ones
                 st0, ng = self.guarded(lambda: t.data_grid(new))
                 if st0 == "ok":
@@ -1594,6 +1594,12 @@ class _Ops:
         if not offers:
             return StepResult("ok", "inverse-unexpected")
         hid = int(op["out"])
+        # structure promised by the link argument: a linked inverse reads the forward transform's parameters
+        fwd = {id(e) for e in walk_elems(t)}
+        if link:
+            bad = [cname(e) for e in walk_elems(r) if not (kind_of(e) == "L" and id(e.params) in fwd)]
+            if bad or generic_pred(r):
+                return StepResult("ok", "inverse-not-linked", [self.viol("C07", "inverse-not-linked", x, desc, {"members_not_linked": bad[:4], "predicts_itself": generic_pred(r)})])
         if isinstance(r, CompositeTransform):
             y = self.add_with_members(hid, r, x.comp, "inverse", smooth=x.smooth, member_buf="unknown")
         else:
